@@ -11,6 +11,7 @@ TRUSTED_BASE = ["harness/detsched.py (deterministic scheduler), harness/engine_c
 
 
 def run(ctx):
+    outcome_under_every_progress(ctx)
     engine_corr.campaign(ctx, {"C04"})
     planlevel.plan_campaign(ctx, {"C04"})
     import prune_corr
@@ -45,3 +46,60 @@ def gather_temporaries(ctx):
             if sorted(executed) != want or got != val:
                 ctx.fail("gather-temporaries", "plan.gather of short-lived structures: run(output=<gather of %r>) executed %r and returned %r" % (want, sorted(executed), got),
                          {"max_workers": workers, "wanted": want})
+
+
+def outcome_under_every_progress(ctx):
+    """Whatever progress display is attached - none, the bundled ones, a list, a composite of composites, a user observer - a run in which a
+    call fails RAISES (a run that returns normally is one in which every needed call ran exactly once), and a run in which nothing fails
+    executes every needed call once and returns the value."""
+    import contextlib
+    import io
+    uj = core.use_repo()
+    from uberjob.progress import Progress, ProgressObserver, composite_progress, console_progress, html_progress, null_progress
+
+    class Quiet(ProgressObserver):
+        def __enter__(self):
+            pass
+
+        def __exit__(self, *a):
+            pass
+
+        def increment_total(self, **k):
+            pass
+
+        increment_running = increment_completed = increment_failed = increment_total
+    kinds = {
+        "None": lambda: None, "False": lambda: False, "null_progress": lambda: null_progress, "console": lambda: console_progress, "html(callable)": lambda: html_progress(lambda b: None),
+        "list of two": lambda: [null_progress, Progress(Quiet)], "tuple of one": lambda: (Progress(Quiet),), "composite_progress": lambda: composite_progress(null_progress, Progress(Quiet)),
+        "nested composite": lambda: composite_progress(composite_progress(Progress(Quiet)), [null_progress]) if False else composite_progress(composite_progress(Progress(Quiet)), null_progress),
+        "user observer": lambda: Progress(Quiet),
+    }
+    for name, mk in kinds.items():
+        for failing in (False, True):
+            for workers in (1, 3):
+                executed = []
+                plan = uj.Plan()
+                a = plan.call(lambda: executed.append("a") or 1)
+                b = plan.call(lambda v: executed.append("b") or v + 1, a)
+
+                def cfn(v):
+                    executed.append("c")
+                    if failing:
+                        raise ValueError("c fails")
+                    return v + 1
+                c = plan.call(cfn, b)
+                d = plan.call(lambda v: executed.append("d") or v + 1, c)
+                ctx.case(("outcome-under-progress", name, failing, workers))
+                try:
+                    with contextlib.redirect_stdout(io.StringIO()), contextlib.redirect_stderr(io.StringIO()):
+                        res = core.call_watched(lambda: uj.run(plan, output=d, progress=mk(), max_workers=workers), timeout=60)
+                    oc = "returned %r" % (res,)
+                except uj.CallError:
+                    oc = "callerror"
+                except BaseException as e:      # noqa
+                    oc = "raised %s: %s" % (type(e).__name__, e)
+                want_oc, want_exec = ("callerror", ["a", "b", "c"]) if failing else ("returned 4", ["a", "b", "c", "d"])
+                if oc != want_oc or executed != want_exec:
+                    ctx.fail("outcome-under-progress", "progress=%s, %s: run %s having executed %r; expected %s and %r - a run that returns normally must have executed every "
+                             "needed call exactly once" % (name, "the third of four chained calls fails" if failing else "no call fails", oc, executed, want_oc, want_exec),
+                             {"progress": name, "failing": failing, "max_workers": workers})
